@@ -175,14 +175,15 @@ class World:
 
 
 class Gate:
-    __slots__ = ("kind", "key", "fut", "seq", "payload")
+    __slots__ = ("kind", "key", "fut", "seq", "payload", "thread")
 
-    def __init__(self, kind, key, fut, seq, payload=None):
+    def __init__(self, kind, key, fut, seq, payload=None, thread=None):
         self.kind = kind
         self.key = key
         self.fut = fut
         self.seq = seq
         self.payload = payload
+        self.thread = thread
 
     def label(self):
         return f"{self.kind}:{self.key}"
@@ -311,6 +312,8 @@ class Proc:
         self.hold_state = su_api._HoldState()
         self.reads = []
         self.writes = []
+        self.held_defs = set()
+        self.announced = {}  # input path -> event index at which the director knew about it
         self.nact = 0
         self.started_at = sim.nev
         self.rpc_log = []
@@ -336,6 +339,9 @@ class Sim:
         self.loop = None
         self.gates = []
         self.gate_seq = 0
+        self.last_thread = None
+        self.thread_ids = {}
+        self.task_parent = {}
         self.nev = 0
         self.log = []
         self.reports = []
@@ -350,6 +356,7 @@ class Sim:
         self.trace = []  # labels of fired events
         self.points = []  # (n_enabled, chosen)
         self.clock_ns = 0
+        self.clock_stall = 0
         self.commit_count = 0
         self.snap_count = 0
         self.snapshot_hook = cfg.get("snapshot_hook")
@@ -363,16 +370,38 @@ class Sim:
         self.exceptions = []  # non-usage exceptions seen in RPC replies or tasks
         self.rpc_replies = []
         self.cmd_windows = []  # (label, job_i, start_ev, end_ev, returncode)
+        self.monitor = []  # violations found by monitors while the session runs
+        self.flags = set()
 
     # -- logging -----------------------------------------------------------------------------
     def logev(self, *rec):
         self.log.append((self.nev, *rec))
 
+    def ext_write(self, rel, content):
+        """An external (user) write while the director lives."""
+        self.world.write(rel, content, who="user")
+        self.logev("write", "<user>", rel, hashlib.sha256(content.encode()).hexdigest())
+
+    def ext_remove(self, rel):
+        self.world.remove(rel, who="user")
+        self.logev("write", "<user>", rel, None)
+
     # -- gates -------------------------------------------------------------------------------
+    def _thread_id(self, task):
+        """Logical thread of a task: request handler tasks belong to the requesting step."""
+        seen = 0
+        while task in self.task_parent and seen < 50:
+            task = self.task_parent[task]
+            seen += 1
+        tid = self.thread_ids.get(task)
+        if tid is None:
+            tid = self.thread_ids[task] = len(self.thread_ids) + 1
+        return tid
+
     async def gate(self, kind, key, payload=None):
         fut = self.loop.create_future()
         self.gate_seq += 1
-        g = Gate(kind, key, fut, self.gate_seq, payload)
+        g = Gate(kind, key, fut, self.gate_seq, payload, self._thread_id(asyncio.current_task()))
         self.gates.append(g)
         try:
             return await fut
@@ -381,8 +410,11 @@ class Sim:
                 self.gates.remove(g)
 
     def enabled(self):
+        # Default (choice 0): keep running the thread that ran last, like a non-preemptive
+        # scheduler; otherwise reporter replies first, then the oldest gate.
         gs = [g for g in self.gates if not g.fut.done()]
-        gs.sort(key=lambda g: (0 if g.kind == "rep" else 1, g.seq))
+        last = self.last_thread
+        gs.sort(key=lambda g: (0 if g.thread == last else 1, 0 if g.kind == "rep" else 1, g.seq))
         evs = list(gs)
         if self.env_events is not None:
             evs.extend(self.env_events(self))
@@ -394,6 +426,7 @@ class Sim:
         if isinstance(ev, Gate):
             if ev in self.gates:
                 self.gates.remove(ev)
+            self.last_thread = ev.thread
             ev.fut.set_result(None)
         else:
             ev.fn(self)
@@ -434,7 +467,10 @@ class Sim:
                 fn = sim.cfg.get("clock_fn")
                 if fn is not None:
                     return fn(sim)
-                sim.clock_ns += 1
+                if sim.clock_stall > 0:
+                    sim.clock_stall -= 1
+                else:
+                    sim.clock_ns += 1
                 return sim.clock_ns
 
         self._patch(su_scheduler, "time", _Clock)
@@ -464,6 +500,16 @@ class Sim:
             return h
 
         self._patch(su_director, "_wire_director", wire)
+
+        orig_pop = su_scheduler.Scheduler.pop_next_job
+
+        async def pop_next_job(sched):
+            job = await orig_pop(sched)
+            if job is not None:
+                sim.logev("DISPATCH", job.step.label, job.prefix)
+            return job
+
+        self._patch(su_scheduler.Scheduler, "pop_next_job", pop_next_job)
 
         orig_aexit = DBSession.__aexit__
 
@@ -647,6 +693,14 @@ class Sim:
         self.running[proc.job_i] = proc
         self.logev("START", proc.label, proc.job_i)
         start_ev = self.nev
+        for (path,) in self.db._con.execute(
+            "SELECT f.label FROM dependency d JOIN node s ON s.i = d.sink "
+            "JOIN node f ON f.i = d.source WHERE s.kind = 'step' AND f.kind = 'file' "
+            "AND s.label = ?", (proc.label,)):
+            proc.announced.setdefault(path, self.nev)
+        hook = self.cfg.get("on_start")
+        if hook is not None:
+            hook(self, proc)
         code, stderr = 0, ""
         try:
             try:
@@ -720,6 +774,9 @@ class Sim:
         w = self.world
         if op == "read":
             self._read(proc, action[1])
+        elif op == "tryread":
+            with contextlib.suppress(ScriptExit):
+                self._read(proc, action[1])
         elif op == "write":
             srcs = action[2] if len(action) > 2 else []
             self._write(proc, action[1], srcs, tag=action[3] if len(action) > 3 else "")
@@ -793,6 +850,7 @@ class Sim:
             args = (proc.job_i, *args[1:])
         call = RPCCall(name, args, kwargs)
         task = self.loop.create_task(su_rpc._call_and_capture_failure(self.handler, call))
+        self.task_parent[task] = asyncio.current_task()
         reply = await asyncio.shield(task)
         rec = (self.nev, proc.label if proc else None, name, args, kwargs, reply)
         self.rpc_replies.append(rec)
@@ -881,7 +939,15 @@ class Sim:
 
     async def _send(self, proc, call):
         proc.rpc_log.append(call)
-        return await self.rpc(proc, call.name, *call.args, **call.kwargs)
+        if call.name == "define_step" and proc.hold_state.holding > 0:
+            command, workdir = call.args[1], str(call.args[6])
+            proc.held_defs.add(command if workdir in (".", "") else f"{command}  # wd={workdir}")
+        reply = await self.rpc(proc, call.name, *call.args, **call.kwargs)
+        if call.name == "amend_step" and not isinstance(reply, RemoteFailure):
+            for path in call.args[1]:
+                proc.announced.setdefault(str(path), self.nev)
+            self.logev("amend", proc.label, sorted(str(x) for x in call.args[1]), reply)
+        return reply
 
     async def _act_hold(self, proc, action):
         proc.nact += 1
@@ -898,6 +964,8 @@ class Sim:
             reply = await self.rpc(proc, "release_dispatch", proc.job_i)
             if not isinstance(reply, RemoteFailure):
                 proc.hold_state.holding -= 1
+                if proc.hold_state.holding == 0:
+                    proc.held_defs.clear()
             elif sys.exc_info()[0] is None:
                 raise ScriptExit(1, reply.message)
 
